@@ -53,7 +53,8 @@ def irow_lit(r):
 _ALLOW = ["Identity", "TimeLimit", "TimeLimit", "ClipReward", "TransformReward", "TransformAction", "RescaleAction"]
 
 
-def gen_rollout_case(ck, rng, idx, *, force_vec=None, det=None, Tmax=10):
+def gen_rollout_case(ck, rng, idx, *, force_vec=None, det=None, Tmax=10, half_bounded=False):
+    """half_bounded: a fifth of the Box action spaces get ONE finite bound only (used by the C04 check, whose property is about clipping)"""
     det = bool(rng.random() < 0.4) if det is None else det
     if det and rng.random() < 0.5:
         # key-free chain MDP under a TimeLimit hitting the terminal step: pure truncation / coincidence / pure termination
@@ -61,7 +62,7 @@ def gen_rollout_case(ck, rng, idx, *, force_vec=None, det=None, Tmax=10):
         spec = chain_tab(rng, K, box_action=bool(rng.random() < 0.3))
         stack, asp, osp = [["TimeLimit", int(K + rng.integers(-1, 2))]], list(spec["asp"]), list(spec["osp"])
     else:
-        spec = random_tab(rng, box_obs=False, noise=not det, trunc_rate=0.08, term_rate=0.15)
+        spec = random_tab(rng, box_obs=False, noise=not det, trunc_rate=0.08, term_rate=0.15, half_bounded=half_bounded)
         if det:
             spec["I"] = spec["I"][:1]
             spec["P"] = [[[x[0]] for x in row] for row in spec["P"]]
